@@ -19,6 +19,14 @@
      AgainEqual         the harness saw two different objects for the same (seed, parameters)
      Deterministic      two build events of this group with equal (generator, backend, seed, parameters) carry
                         different payloads (compared by TLC)
+   Builds without .seed() (harness option --api, audit #22; fields "unseeded", "default", "sem"): an unseeded build cannot be
+   compared with anything (AgainEqual / Deterministic are skipped) but must satisfy the same contract for the parameter values
+   its builder holds (read back from the builder's public fields); "sem" = FALSE skips the semantic hidden-shift promise
+   (40-qubit default instance: no 2^40 state vector).
+     DefaultAdmissible  a builder taken straight from Default / Circuit::random_*() / ::new(), no parameter set by the caller,
+                        holds admissible parameters (so that NoPanic and the contract apply to what every user gets first)
+   RandomPauliGadgetCircuitBuilder::weight(w) is logged with the parameters it means (min = max = w) under the key of a
+   min_weight(w).max_weight(w) build of the same group: PauliGadgetOK judges the weights, Deterministic the equality.
    L1 (drift only): PauliGadgetAsBuilt (sorted qubit lists, ascending basis layer, non-zero phase: what the builder does
      beyond the property's text), SurfaceCodeAllSyndromes (every syndrome qubit measured once per round).
    Phases of Pauli-gadget circuits are arbitrary fractions of pi: they are read as raw <<num, den>> pairs
@@ -30,7 +38,7 @@ vars == <<l, seen, viol, drift, stats>>
 Init == l = 1 /\ seen = <<>> /\ viol = <<>> /\ drift = <<>>
         /\ stats = [groups |-> 0, builds |-> 0, random_circuit |-> 0, hidden_shift |-> 0, pauli_gadget |-> 0, stab_state |-> 0,
                     surface_code |-> 0, panics_admissible |-> 0, rejected_inadmissible |-> 0, pairs_by_tlc |-> 0,
-                    gates |-> 0, nontrivial |-> 0]
+                    gates |-> 0, nontrivial |-> 0, unseeded |-> 0, default_builds |-> 0, via_weight |-> 0, promise_skipped |-> 0]
 
 GateFromAbsRaw(j) == [t |-> j.t, qs |-> j.qs, ph |-> <<j.ph[1], j.ph[2]>>, vars |-> ParFromAbs(j.vars, FALSE)]
 CircFromAbsRaw(j) == [n |-> j.n, gates |-> [i \in 1..Len(j.gates) |-> GateFromAbsRaw(j.gates[i])]]
@@ -43,6 +51,10 @@ Admissible(e) ==
     [] e.gen = "surface_code"   -> SurfaceCodeAdmissible(e.params)
     [] OTHER -> FALSE
 Check1(ok, name) == IF ok THEN <<>> ELSE <<<<l, name>>>>
+\* events recorded before the option --api existed do not carry these fields
+Unseeded(e) == Has(e, "unseeded") /\ e.unseeded
+IsDefault(e) == Has(e, "default") /\ e.default
+Sem(e) == Has(e, "sem") => e.sem
 
 \* failed contract predicates of an "ok" build (only demanded for admissible parameters)
 Contract(e) ==
@@ -52,7 +64,7 @@ Contract(e) ==
          IF ~CircOK(e.c) THEN Check1(FALSE, "HiddenShiftShape")
          ELSE LET c == CircFromAbs(e.c) IN
               Check1(HiddenShiftShape(e.params, c, e.shift), "HiddenShiftShape")
-              \o Check1(HiddenShiftPromise(c, e.shift), "HiddenShiftPromise")
+              \o Check1(Sem(e) => HiddenShiftPromise(c, e.shift), "HiddenShiftPromise")
               \o Check1(e.full => HiddenShiftPromiseFull(c, e.shift), "HiddenShiftPromiseFull")
     [] e.gen = "pauli_gadget" ->
          Check1(PauliGadgetOK(e.params, CircFromAbsRaw(e.c)), "PauliGadgetOK")
@@ -79,13 +91,23 @@ Step(e) ==
     [] e.k = "build" ->
          LET adm == Admissible(e)
              key == <<e.gen, e.be, e.seed, e.params>>
+             dfl == Check1(IsDefault(e) => adm, "DefaultAdmissible")
          IN IF e.res # "ok" THEN
-              /\ viol' = IF adm THEN Append(viol, <<l, "NoPanic", e.gen>>) ELSE viol
+              /\ viol' = (IF adm THEN <<<<l, "NoPanic", e.gen>>>> ELSE <<>>) \o dfl \o viol
               /\ stats' = [Bump(stats, e) EXCEPT !.panics_admissible = @ + (IF adm THEN 1 ELSE 0),
                                                  !.rejected_inadmissible = @ + (IF adm THEN 0 ELSE 1)]
               /\ UNCHANGED <<seen, drift>>
             ELSE IF ~adm THEN       \* the property promises nothing outside the admissible parameters
-              /\ stats' = Bump(stats, e) /\ UNCHANGED <<seen, viol, drift>>
+              /\ viol' = dfl \o viol
+              /\ stats' = Bump(stats, e) /\ UNCHANGED <<seen, drift>>
+            ELSE IF Unseeded(e) THEN    \* nothing to compare an unseeded object with: the contract only
+              /\ viol' = Contract(e) \o viol
+              /\ drift' = Drift(e) \o drift
+              /\ stats' = [Bump(stats, e) EXCEPT !.gates = @ + Size(e), !.unseeded = @ + 1,
+                                                 !.default_builds = @ + (IF IsDefault(e) THEN 1 ELSE 0),
+                                                 !.promise_skipped = @ + (IF Sem(e) THEN 0 ELSE 1),
+                                                 !.nontrivial = @ + (IF Size(e) > 0 THEN 1 ELSE 0)]
+              /\ UNCHANGED seen
             ELSE
               LET pay == Payload(e)
                   known == key \in DOMAIN seen
@@ -95,6 +117,7 @@ Step(e) ==
                  /\ seen' = IF e.keep /\ ~known THEN (key :> pay) @@ seen ELSE seen
                  /\ stats' = [Bump(stats, e) EXCEPT !.pairs_by_tlc = @ + (IF known THEN 1 ELSE 0),
                                                     !.gates = @ + Size(e),
+                                                    !.via_weight = @ + (IF Has(e, "via_weight") THEN 1 ELSE 0),
                                                     !.nontrivial = @ + (IF Size(e) > 0 THEN 1 ELSE 0)]
 Next == \/ /\ l <= NLines /\ Step(Rec[l]) /\ l' = l + 1
         \/ /\ l = NLines + 1 /\ Report(l, viol, drift, stats) /\ l' = l + 1 /\ UNCHANGED <<seen, viol, drift, stats>>
